@@ -421,6 +421,19 @@ func c11RandomPlan(r *rand.Rand, i int) c11Plan {
 			blk = append(blk, c11Tx{Kind: "vote", V: (mal % 3) + 1, Req: fmt.Sprintf("r%d", i), Choice: 1})
 			blk = append(blk, c11Tx{Kind: "vote", V: ((mal + 1) % 3) + 1, Req: fmt.Sprintf("r%d", i), Choice: 1})
 		}
+		if r.Intn(5) == 0 {
+			// burst: several unstakes of the same delegator in one block (same maturity height), from its
+			// own validator and from a candidate validator staked out of the same account
+			v := r.Intn(4)
+			for j := 0; j < 2+r.Intn(3); j++ {
+				a := []string{"1", "100", "100", "500", "1500"}[r.Intn(5)]
+				if r.Intn(3) == 0 {
+					blk = append(blk, c11Tx{Kind: "unstake", V: 4 + r.Intn(2), D: v, Amount: a})
+				} else {
+					blk = append(blk, c11Tx{Kind: "unstake", V: v, D: -1, Amount: a})
+				}
+			}
+		}
 		n := r.Intn(4)
 		for j := 0; j < n; j++ {
 			v := r.Intn(6)
@@ -430,6 +443,9 @@ func c11RandomPlan(r *rand.Rand, i int) c11Plan {
 			}
 			switch k := r.Intn(10); {
 			case k < 3:
+				if v >= 4 && d < 0 && r.Intn(3) == 0 {
+					d = r.Intn(4) // a candidate validator staked from a genesis validator's stake account
+				}
 				blk = append(blk, c11Tx{Kind: "stake", V: v, D: d, Amount: amount("stake")})
 			case k < 6:
 				blk = append(blk, c11Tx{Kind: "unstake", V: v, D: d, Amount: amount("unstake")})
@@ -508,6 +524,16 @@ func c11Scripts() []c11Plan {
 	pb.Blocks[1] = []c11Tx{tx("unstake", 2, "2997500")}
 	pb.Blocks[2] = []c11Tx{{Kind: "allege", V: 0, Req: "pb", Mal: 2}, {Kind: "vote", V: 0, Req: "pb", Choice: 1}, {Kind: "vote", V: 1, Req: "pb", Choice: 1}, {Kind: "vote", V: 3, Req: "pb", Choice: 1}}
 	ps = append(ps, pb)
+	// several unstakes of one delegator maturing at the same height: same validator (incl. equal
+	// amounts), another validator staked from the same account, and a later unstake under a shorter
+	// maturity option that lands on the same height
+	sh := c11Plan{Name: "same_height_unstakes", Genesis: "default", Mat: 2, Blocks: c11Empty(10)}
+	sh.Blocks[1] = []c11Tx{{Kind: "stake", V: 4, D: 1, Amount: "5000"}}
+	sh.Blocks[2] = []c11Tx{tx("unstake", 1, "100"), tx("unstake", 1, "200"), {Kind: "unstake", V: 4, D: 1, Amount: "300"}, tx("unstake", 1, "100")}
+	sh.Blocks[3] = []c11Tx{{Kind: "setmaturity", NewMat: 1, D: -1}, tx("unstake", 1, "50"), {Kind: "unstake", V: 4, D: 1, Amount: "50"}}
+	sh.Blocks[4] = []c11Tx{tx("withdraw", 1, "801")}
+	sh.Blocks[5] = []c11Tx{tx("withdraw", 1, "800"), tx("withdraw", 1, "1")}
+	ps = append(ps, sh)
 	// maturity option changed between unstake and maturity: the height fixed at unstake time counts
 	mc := c11Plan{Name: "maturity_change", Genesis: "mature", Mat: 4, Blocks: c11Empty(14)}
 	mc.Blocks[1] = []c11Tx{tx("unstake", 1, "1000")}
